@@ -120,6 +120,10 @@ func (x *G) attrs(tag string) [][2]string {
 		if x.chance("ivalue", 2) {
 			add("value", x.pick("ivalue", []string{"", "on", "v", " x ", "ON"}))
 		}
+		if x.chance("ipattern", 6) {
+			x.Feats["pattern-attribute"]++
+			add("pattern", x.pick("ipatternv", []string{"a  b", " [a-z]+ ", "\\d{3}", "x|y  "}))
+		}
 	case "form":
 		if x.chance("fattrs", 2) {
 			add("method", x.pick("method", []string{"get", "GET", "post", " get "}))
@@ -156,7 +160,7 @@ func (x *G) attrs(tag string) [][2]string {
 			add("content", x.pick("ctcontent", []string{"text/html; charset=utf-8", "text/html; charset=UTF-8", "text/html;charset=iso-8859-1", "TEXT/HTML; CHARSET=UTF-8"}))
 		case 2:
 			add("name", x.pick("metaname", []string{"keywords", "viewport", "description", "Keywords"}))
-			add("content", x.pick("metacontent", []string{"a, b, c", "width=device-width, initial-scale=1.0", "width=device-width,initial-scale=0.50", "Some  text, here", "initial-scale=1.0, maximum-scale=2.00"}))
+			add("content", x.pick("metacontent", []string{"a, b, c", "width=device-width, initial-scale=1.0", "width=device-width,initial-scale=0.50", "Some  text, here", "initial-scale=1.0, maximum-scale=2.00", "width=device-width initial-scale=1", " width = device-width ,  initial-scale = 1 ", "width=device-width;initial-scale=1"}))
 		default:
 			add("name", "x")
 			add("content", x.pick("attrval", attrValues))
@@ -216,6 +220,14 @@ func (x *G) phrasing(depth int, inA bool) []*Node {
 				if x.chance("optgroup", 3) {
 					og := &Node{Tag: "optgroup", Attrs: [][2]string{{"label", "g"}}, Kids: []*Node{{Tag: "option", Kids: []*Node{x.text()}}}}
 					sel.Kids = append(sel.Kids, og)
+					if x.chance("afteroptgroup", 2) {
+						// an option after the group, possibly with a comment in between: the group must still end before it
+						if x.chance("optgroupcomment", 2) {
+							x.Feats["comment-after-optgroup"]++
+							sel.Kids = append(sel.Kids, &Node{Tag: "!", Text: " c "})
+						}
+						sel.Kids = append(sel.Kids, &Node{Tag: "option", Kids: []*Node{x.text()}})
+					}
 				}
 				out = append(out, sel)
 			default:
@@ -260,6 +272,11 @@ func (x *G) flow(depth int, inForm bool) []*Node {
 			out = append(out, x.wsText())
 		case k == 5 && !x.guard("noRawInFlow"):
 			out = append(out, x.raw(true))
+		case k == 6 && x.chance("transparentbox", 3):
+			// transparent and custom elements around a paragraph: their end tags do not close the p
+			x.Feats["p-in-slot-or-custom-element"]++
+			box := &Node{Tag: x.pick("boxtag", []string{"slot", "my-el", "x-box", "ins", "del"}), Kids: []*Node{{Tag: "p", Kids: x.phrasing(depth-1, false)}}}
+			out = append(out, box, x.text())
 		default:
 			tag := x.pick("btag", blockTags)
 			if tag == "form" && inForm {
@@ -289,7 +306,7 @@ func (x *G) raw(inFlow bool) *Node {
 	if x.Script != nil {
 		js = x.Script()
 	} else {
-		js = x.pick("js", []string{"var a = 1 ;", "", " ", "if (a < b && c > d) { f(\"</p>\") }", "x = '<\\/script>'", "// c\nf()", "document.write(\"<b>\")", "a = 1 <!-- c\n", "x = `t`"})
+		js = x.pick("js", []string{"var a = 1 ;", "", " ", "if (a < b && c > d) { f(\"</p>\") }", "x = '<\\/script>'", "// c\nf()", "document.write(\"<b>\")", "a = 1 <!-- c\n", "x = `t`", "x=a< /script /.test(b)", "x=a< /SCRIPT>/i.test(b)", "x=\"<\"+\"!--\";y=\"<\"+\"script>\"", "var s = \"\\x3c!--\\x3cscript>\";", "x=\"<\\/script-x>\""})
 	}
 	return &Node{Tag: "script", Attrs: x.attrs("script"), Kids: []*Node{{Text: js}}}
 }
@@ -599,7 +616,7 @@ func canOmitEnd(tag string, next *Node, parent string) bool {
 		return next == nil || nextTag == "dt" || nextTag == "dd"
 	case "p":
 		if next == nil {
-			return parent != "a" && parent != "audio" && parent != "del" && parent != "ins" && parent != "map" && parent != "noscript" && parent != "video"
+			return parent != "a" && parent != "audio" && parent != "del" && parent != "ins" && parent != "map" && parent != "noscript" && parent != "video" && parent != "slot" && !strings.Contains(parent, "-")
 		}
 		switch nextTag {
 		case "address", "article", "aside", "blockquote", "details", "div", "dl", "fieldset", "figcaption", "figure", "footer", "form", "h1", "h2", "h3", "h4", "h5", "h6", "header", "hgroup", "hr", "main", "menu", "nav", "ol", "p", "pre", "section", "table", "ul":
